@@ -28,6 +28,18 @@ CLAIMS = {
         note=LEAN_NOTE + "bytes crate panic conditions as modelled in Model/Basic.lean; heap budget 64 x bytes received + 32 KiB",
         technique="Lean 4 proof (explicit panic outcomes, retained-bytes invariant) + hostile-input correspondence with heap/stack observation",
     ),
+    "C05": dict(
+        engine="fq",
+        text="Lean 4 invariants over the micro-step model of the fair queue (lock sections A/B/C, insert/remove/arrive/close landing anywhere, incl. inside the unlocked window), proved preserved by every step and hence true after ANY finite schedule with any number of peers: conservation (given = delivered ++ in-flight ++ still queued), per-peer prefix order, no duplicates, at most one stream checked out. Tie: the real FairQueue over scripted streams replays the SAME schedule as the model and must give the same result for every poll (exhaustive op sequences for 2/3 peers, every single window-action placement, seeded random); Spec oracle on the implementation's trace (prefix, no-dup, completeness after drain). Socket-level recv filters are tied by the world engine as it grows.",
+        note=LEAN_NOTE + "std BinaryHeap/HashMap, parking_lot::Mutex as atomic sections; true parallel data races not modelled; distinct keys",
+        technique="Lean 4 proof (invariant by induction over all interleavings) + exact-schedule differential correspondence",
+    ),
+    "C06": dict(
+        engine="fq",
+        text="Lean 4 theorems over the same fair-queue model, for all schedules: I1 (parked & un-notified => heap empty & waker published), I2 (available => exactly one event), wake-up on arrive/close/insert, progress (a polled recv returns Ready within 3*|heap| sections whenever something is available), bounded bypass (while i is owed a delivery every other peer is served at most once; potential argument over tickets). PARTIAL: the bypass bound assumes the kernel-socket waker discipline; real-time liveness of the reactor is outside the model. Tie: wake counts and exact delivery order compared per op with the real FairQueue on exhaustive and seeded schedules; Spec oracle for wake, completeness and bypass on the implementation's trace.",
+        note=LEAN_NOTE + "waker discipline hypothesis (one armed waker per stream, consumed on firing) for the bypass bound; OS/tokio timing not modelled",
+        technique="Lean 4 proof (invariants I1/I2/one-token, progress by strong induction, bounded bypass by ticket potential) + exact-schedule differential correspondence",
+    ),
     "C19": dict(
         engine="endpoint",
         text="Lean 4 theorems over the endpoint parser model (the two regexes' semantics spelled out over List Char): parse s = ok e <-> the declarative grammar of the property (strict, both directions), parse (display e) = ok e for every parsed e (round trip, IPv6 bracketed), the only slicing operation is in range and on char boundaries (total), IP literals become addresses. std::net enters through an explicit structure of laws (hypotheses of the round-trip theorem). Tie: real str::parse::<Endpoint>() + Display + re-parse vs the model, EXHAUSTIVELY over a 17-character alphabet (incl. newline, non-ASCII digit, upper case) to length 4/5 after 5 prefixes, grammar-based and mutated endpoints; the Lean models of std::net parse/print are compared with the real std on sampled addresses and near-valid IPv6/IPv4 texts.",
@@ -73,6 +85,7 @@ def main():
         "engines": [
             {"name": "tables", "path": "harness/src/tables.rs -> lean/ZmqVerif/Gen/Tables.lean", "serves_properties": ["C01", "C03", "C04"], "kind_free_text": "finite tables regenerated from the real code's behaviour on every run; theorems re-proved over them by decide"},
             {"name": "codec", "path": "harness/src/codec.rs + lean/Driver/Codec.lean", "serves_properties": ["C01", "C02", "C03"], "kind_free_text": "real ZmqCodec vs the Lean decoder/encoder model over a line protocol; hostile mode with counting allocator and small-stack thread"},
+            {"name": "fq", "path": "harness/src/fq.rs + lean/Driver/Fq.lean", "serves_properties": ["C05", "C06"], "kind_free_text": "real FairQueue (via __verif::FairQueueProbe) over scripted streams with window actions and a counting receiver waker vs the Lean micro-step model, exact schedule replay"},
             {"name": "endpoint", "path": "harness/src/endpoint.rs + lean/Driver/Endpoint.lean", "serves_properties": ["C19"], "kind_free_text": "real Endpoint::from_str/Display and std::net vs the Lean endpoint and IP text models"},
             {"name": "spec", "path": "lean/Driver/Spec.lean", "serves_properties": ["C01"], "kind_free_text": "Lean Spec predicates (strict RFC-23 grammar) evaluated on bytes the implementation produced"},
         ],
